@@ -45,7 +45,8 @@ def gen_cases(tier, seed):
         c['id'] = (f"C05-{tier[0]}{seed}-{len(cases):03d}-{variant}-{kind}"
                    f"{'' if kw.get('first_gs', None) is None else int(kw['first_gs'])}-"
                    f"{block.replace(',', '_')}-{order}-k{c['n_particles']}"
-                   f"{'' if c['subtract_gs'] else '-nogs'}")
+                   f"{'' if c['subtract_gs'] else '-nogs'}"
+                   f"{'-singles' if kw.get('singles') else ''}")
         cases.append(c)
     for variant in ('pp', 'ip', 'ea'):
         s1, s2 = spaces_upto(variant, 2)
@@ -65,6 +66,17 @@ def gen_cases(tier, seed):
             add(variant, 'tm', s2, order, cost=20 + 40 * order)
         add(variant, 'sum_ev', '', 1, cost=60)
         add(variant, 'sum_tm', '', 2, cost=100)
+    # ground state with free first-order singles (first_order_singles=True)
+    for variant in ('pp', 'ip'):
+        s1, s2 = spaces_upto(variant, 2)
+        for order in (0, 1, 2):
+            add(variant, 'expec', f'{s1},{s1}', order, cost=20 + 60 * order,
+                singles=True)
+        add(variant, 'expec', f'{s1},{s1}', 1, subtract_gs=False, cost=30,
+            singles=True)
+        add(variant, 'expec', f'{s1},{s2}', 1, cost=90, singles=True)
+        for order in (1, 2):
+            add(variant, 'tm', s1, order, cost=20 + 30 * order, singles=True)
     for variant in ('dip', 'dea'):
         s1, s2 = spaces_upto(variant, 2)
         add(variant, 'expec', f'{s1},{s1}', 1, cost=40)
@@ -152,10 +164,10 @@ def run_case(case, res):
     variant, kind, order = case['variant'], case['kind'], case['order']
     kp = case['n_particles']
     sgs = case['subtract_gs']
-    gs = GroundState(Operators('mp'))
+    gs = GroundState(Operators('mp'), bool(case.get('singles')))
     lib_isr = IntermediateStates(gs, variant)
     prop = Properties(lib_isr)
-    res.fingerprint = fp(variant, kind, case['block'], kp, order, sgs,
+    res.fingerprint = fp(variant, kind, case['block'], kp, order, sgs, bool(case.get('singles')),
                          case['dims'])
     ref, I = build_reference(case, max(order, 1))
     if ref is None:
